@@ -92,6 +92,8 @@ class AgeFitness(Selection):
         return list(inds)
 
     def _find_inds_for_removal(self, inds, population, num_removals_needed):
+        if len(inds) < 2:
+            return []
         if self._selection_size == 2:
             return self._streamlined_pair_removal(inds[0], inds[1], population)
 
